@@ -187,7 +187,7 @@ func vfC14(w *vfWorld) {
 	cfg.Store = vfPick(t, "c14.store", []string{"cookie", "redis"})
 	cfg.CookieRefresh, cfg.CookieExpire = 10*time.Minute, 6*time.Hour
 	cfg.Extra = append(cfg.Extra, "--pass-access-token=true", "--set-xauthrequest=true", "--skip-jwt-bearer-tokens=true")
-	flows := []string{"login", "login-profile", "bearer", "refresh", "plain-login", "plain-stale", "refresh-profile", "google-login", "backend-logout"}
+	flows := []string{"login", "login-profile", "bearer", "refresh", "plain-login", "plain-stale", "refresh-profile", "google-login", "backend-logout", "google-refresh"}
 	flow := flows[t.Choice("c14.flow", len(flows))]
 	if strings.HasPrefix(flow, "plain") {
 		cfg.Provider = "plain"
@@ -197,7 +197,7 @@ func vfC14(w *vfWorld) {
 		// the sign-out calls the provider's end-session endpoint from the back channel
 		cfg.Extra = append(cfg.Extra, "--backend-logout-url=http://"+vfIdpHost+"/logout?id_token_hint={id_token}")
 	}
-	if flow == "google-login" {
+	if flow == "google-login" || flow == "google-refresh" {
 		cfg.Provider = "google"
 		cfg.Extra = []string{"--pass-access-token=true", "--set-xauthrequest=true"}
 	}
@@ -321,7 +321,7 @@ func vfC14(w *vfWorld) {
 			return true
 		case "backend-logout":
 			return login(b)
-		case "refresh", "refresh-profile", "plain-stale":
+		case "refresh", "refresh-profile", "plain-stale", "google-refresh":
 			if !login(b) {
 				return false
 			}
@@ -487,6 +487,12 @@ func vfC14(w *vfWorld) {
 				if kd.Need != "" && !lacks[kd.Need] {
 					mustReject = false
 				}
+				if flow == "google-refresh" && kd.Mint != nil {
+					// (see google-login below for what this provider does not check.) A refresh answer that delivers no access
+					// token renews nothing
+					n := kd0.Name
+					mustReject = !transient && (n == "no-access-token" || (strings.HasPrefix(n, "omit:") && strings.Contains(n, "access_token")))
+				}
 				if flow == "google-login" && kd.Mint != nil {
 					// this provider takes the ID token from its token endpoint without verifying signature, issuer, audience,
 					// expiry or nonce (by design: it trusts the back channel). What it does promise: a payload it can decode,
@@ -521,13 +527,30 @@ func vfC14(w *vfWorld) {
 						if served(r) {
 							w.violate("C14", "served-after-failed-validation", kd.Name, "%s: stale session served although the validation call failed", label)
 						}
-					case "refresh", "refresh-profile":
+					case "refresh", "refresh-profile", "google-refresh":
 						// falling back to the still-valid old ID token is allowed; adopting anything from the
 						// rejected response is not
 						for _, h := range r.UpHits {
 							if at := h.Get("X-Forwarded-Access-Token"); rejectedAT != "" && at == rejectedAT {
 								w.violate("C14", "tokens-from-rejected-refresh", kd.Name, "%s: the access token of a rejected refresh response was forwarded upstream", label)
 							}
+						}
+						if flow == "google-refresh" {
+							// this provider saves first and validates afterwards; a session that is written and removed again within
+							// the same request is not extended - what counts is what is left when the response has gone out
+							left := vfSessionCookieSet(r, cfg.CookieName) && !vfHasDeletion(r, cfg.CookieName) && !vfHasDeletion(r, cfg.CookieName+"_0")
+							if w.redis != nil {
+								left = false
+								for _, ev := range w.redis.Events()[sets:] {
+									if ev.Name == "SET" && !ev.IsLock && w.redis.Exists(ev.Key) {
+										left = true
+									}
+								}
+							}
+							if left && kd.Mint != nil {
+								w.violate("C14", "session-extended-by-failed-refresh", kd.Name, "%s: the session was re-issued (and is still there after the response) from a refresh answer that delivered no access token", label)
+							}
+							break
 						}
 						if vfSessionCookieSet(r, cfg.CookieName) && cfg.Store == "cookie" && (kd.Fault.Kind != "" || kd.AT != nil) {
 							w.violate("C14", "session-extended-by-failed-refresh", kd.Name, "%s: a new session cookie was issued although the refresh call failed", label)
